@@ -292,9 +292,9 @@ class PteraTransformer(NodeTransformer):
     def _set(self, name):
         return ast.Name(id=self.lib[name][0], ctx=ast.Store())
 
-    def _interact(self, *args):
+    def _interact(self, *args, force=False):
         varname, key, ann, value, overridable = args
-        if not self.should_instrument(varname, ann):
+        if not force and not self.should_instrument(varname, ann):
             return value if isinstance(value, ast.AST) else ast.Constant(value)
 
         args = [
@@ -458,7 +458,11 @@ class PteraTransformer(NodeTransformer):
         if value_args is None:
             new_value = value
         else:
-            new_value = self._interact(*value_args)
+            # A declaration without a value (x: int) must be given a value
+            # from outside or fail: it always goes through interact, even
+            # when no active selector names the variable, otherwise the
+            # ABSENT marker itself would be stored in the variable.
+            new_value = self._interact(*value_args, force=value is None)
         if isinstance(target, str):
             assert not expression
             return [ast.Expr(new_value)]
